@@ -13,6 +13,17 @@ CLAIMS = {
          "Trusted: Coq kernel; hand-written model of xormasker.py/_xormasker.c tied by differential runs (not a translator); "
          "C memory safety not modelled. Role policy (client masks/server does not) is proved in the C01/WsSend model.",
          "Coq proof by list induction + correspondence sweep vs real code"),
+ "C09": ("5 C09",
+         "Coq theorems over tables regenerated from the source on every run: all 2304 transitions of the Python table, the C "
+         "table (values dumped by a compiled program that #includes the C file) and the compiled DFA_TRANSITION macro equal "
+         "RFC 3629. By induction on unbounded input: validate accepts exactly well-formed UTF-8 (= concatenations of encodings "
+         "of scalar values), boundary flag and first-offender index exact; for every chunking (empty chunks and chunks after a "
+         "reject included) every call's 4-tuple equals the reference, for pure Python and every NVX selector (so NVX = Python on "
+         "every call). Correspondence: all strings <= 2 (thorough: <= 3) octets and generated mixtures under random chunkings on "
+         "six implementation configurations against CPython's strict codec and the Gallina model.",
+         "Trusted: Coq kernel; translator (values read by import / compiled dumper); CPython utf-8 codec as oracle. Modelled, not "
+         "verified: bytes/int semantics, size_t wrap, C memory safety, cffi buffer passing; SSE2/SSE4.1 bodies are dead code.",
+         "generated-table sweeps by vm_compute, list induction, differential runs vs CPython codec"),
 }
 NOT_YET = {}
 
